@@ -14,14 +14,14 @@ def run(ctx):
                        "state after a non-budget error is not compared"]
     mb = 24 if ctx.tier == "quick" else 48
     consts = {"Tier": '"%s"' % ("quick" if ctx.tier == "quick" else "quick"), "StepBound": "400",
-              "MaxBudget": str(mb), "Family": '"budget"'}
+              "MaxBudget": str(mb), "FeedLen": "1", "Family": '"budget"'}
     summ, vec, base = pscommon.run_mbt(ctx, "MC_PSProg", consts, "psbudget", base_heap="FreshHeap",
                                        invariants=("Emit", "Inv", "BudgetTransparent"))
     pscommon.absorb(ctx, summ, "vh replay-ps (MC_PSProg budget)", "PSMachine!Count / BudgetTransparent")
     pscommon.negative_control(ctx, vec, base)
     ctx.extra["budget_runs"] = summ["vectors"]
     # (b) recursion and growth shapes against the real limits
-    cl = {"Tier": '"quick"', "StepBound": "9000", "MaxBudget": "1", "Family": '"limits"'}
+    cl = {"Tier": '"quick"', "StepBound": "9000", "MaxBudget": "1", "FeedLen": "1", "Family": '"limits"'}
     summ2, _, _ = pscommon.run_mbt(ctx, "MC_PSProg", cl, "pslimits", base_heap="FreshHeap")
     pscommon.absorb(ctx, summ2, "vh replay-ps (MC_PSProg limits)", "PSMachine!EnterProc/CallProc/Guarded, PSOps!NewContainer")
     ctx.extra["limit_shapes"] = summ2["vectors"]
